@@ -103,12 +103,12 @@ def res_tables(net):
     return sorted(k for k in net.keys() if k.startswith("res_") and hasattr(net[k], "columns") and len(net[k]))
 
 
-def compare_results(net_a, net_b, atol=1e-10, rtol=1e-9, index_map=None, skip_cols=()):
+def compare_results(net_a, net_b, atol=1e-10, rtol=1e-9, index_map=None, skip_cols=(), subset=False):
     """compare all result tables of two nets element by element; returns list of differences
     (table, column, index, a, b).  NaN must match NaN.  index_map: table -> {index_a: index_b}."""
     diffs = []
     for t in res_tables(net_a):
-        if t not in net_b or len(net_b[t]) != len(net_a[t]):
+        if t not in net_b or (len(net_b[t]) != len(net_a[t]) and not subset):
             diffs.append((t, "<shape>", None, len(net_a[t]), len(net_b[t]) if t in net_b else None))
             continue
         a, b = net_a[t], net_b[t]
